@@ -156,3 +156,4 @@ Print Assumptions frames_enc.
 Print Assumptions frames_cut_payload.
 Print Assumptions frames_cut_header.
 Print Assumptions frames_fuel_enough.
+
